@@ -120,7 +120,7 @@ def cmd_run(a):
                 meta["applied_to"] = old_tree
             props = a.props.split(",") if a.props else [prop]
             for p in props:
-                env = dict(os.environ, VERIF_REPO=wt)
+                env = dict(os.environ, VERIF_REPO=wt, VERIF_STOP_AT_FIRST="1")
                 env.pop("DSIM_REEXEC", None)
                 cmd = [os.path.join(HERE, "check"), p, "--tier", a.tier, "--no-evidence"]
                 if a.runs:
